@@ -46,6 +46,15 @@ PROP = dict(
         "Honest (each delivered answer's payload is a function of its id) is the premise of demux_own_answer / demux_not_other; demux itself has no premise",
     ],
     partial=[
+        "TIMERS ARE NOT STATE in this model: the client timeout, the 10 s silence timer and the 3 s ping period are always-enabled "
+        "environment actions (`timeout k` whenever the call waits, `silence c` whenever a reader runs, `pingBegin/pingFail` whenever the mutex "
+        "is free); there is no clock and no `tick`. What depends on their VALUES is covered by effectiveDeadline/timeout_is_min (a pure "
+        "function), the regenerated obligations (unconditional WithTimeout, fresh time.After per packet) and the real-time scenarios only",
+        "HAND-WRITTEN request wrappers of client.go (WaitMasterchainSeqno / WaitMasterchainBlock: waitMasterchainSeqno#baeab892 prefix, "
+        "lookupBlock#fac8f71e, answer tags bba9e148 / 752d8219) are not modelled; go.client.wait runs them through the real Client against the "
+        "scripted server, which reads the bytes with its own TL reading (constants from TON's lite_api.tl)",
+        "no_deadlock_client: clauses 1, 2, 5 are facts of `step` that hold in every state; only clauses 3 and 4 use invariants. Healthy ignores "
+        "canWrite (a connection with a stalled peer counts as healthy)",
         "timeout_returns, duplicate_dropped, round_robin, status_machine_send_fails are SINGLE-STEP facts about `step` (true in every state, "
         "by case analysis of the definition), not invariants over runs; demux_not_other needs an injective `ans` (different ids, different answers)",
         "no theorem 'every call returns' under fairness of its own goroutine + PeersDrain (only the ingredients: rank decreases, never increases, "
@@ -83,7 +92,7 @@ PROP = dict(
         "sequences of C12 are connection DROPS (mid-request, idle, during reconnect): a peer that closes during the handshake gives EOF and the "
         "reconnect loop retries after 1 s (exercised by the slow chaos scenarios). The unbounded case needs a peer that accepts the TCP "
         "connection and then neither answers nor closes, which no server implementing the specification does; it is fairness assumption F4 "
-        "of reconnect_bounded. It remains a robustness weakness (reconnect() then blocks in ParsePacket for ever, status stays Connecting)",
+        "of reconnect_live. It remains a robustness weakness (reconnect() then blocks in ParsePacket for ever, status stays Connecting)",
         "OBSERVATION 3 (deaf but Connected after a parse error) — decided: NOT a violation of C12. A parse error needs a corrupted stream or "
         "a frame outside 64..8 MiB, i.e. a C11 fault, not a drop/reorder/duplicate history of C12; the server has not closed the connection, "
         "so 'after the server closes the connection the client reconnects' does not apply, and calls on that connection still return timeout "
@@ -97,11 +106,12 @@ PROP = dict(
                "(reachable states, Connection.mu modelled: an unreturned call has an enabled own action, or waits for the mutex held by a goroutine "
                "inside a write, or is inside a write blocked by the peer; the mutex holder never waits for a mutex), stalled_peer_outlives_deadline "
                "(witness: with a peer that stops reading a call outlives any deadline — reproduced on the real client, known finding), "
-               "sends_complete_when_peers_drain, reconnect_live (LIVENESS over infinite executions with the fairness assumptions as Lean hypotheses: "
+               "sends_complete_when_peers_drain, reconnect_live (non-vacuity: cycExec, an execution that drops and reconnects for ever, meets all six "
+               "hypotheses), reconnect_live (LIVENESS over infinite executions with the fairness assumptions as Lean hypotheses: "
                "the connection is healthy again infinitely often), reconnect_recoverable (existence of a <= 5-step recovery path; not liveness) + "
                "call_can_succeed, timeout_is_min, reader_never_blocks (inductive invariant: registered id => empty channel; pending send => empty channel, unique), "
                "register_before_send, timeout_returns, no_leak_model, status_machine (+ _send_fails, _drop_reconnects), round_robin. "
-               "The invariants are proved by case analysis over all 15 actions. Tie to the code: operation-order obligations regenerated "
+               "The invariants are proved by case analysis over all 21 actions. Tie to the code: operation-order obligations regenerated "
                "from the Go source by a go/ast translator on every run, and histories of real concurrent executions (drops, reconnects, "
                "duplicates, unknown ids, malformed answers) validated as traces of the model; traces_validated_against_impl counts the "
                "deterministic scenarios whose per-call results equal the model's prediction, chaos histories are validated inside the "
